@@ -5,9 +5,12 @@ them (bin/mk_dependency_ties.py; hand-run): a source change there is reported fo
 import Uniflow.Props.C06TieFn2
 import Uniflow.Props.C05TieFn1
 import Uniflow.Props.C05TieFn2
+import Uniflow.Props.C08TieLayer
 
 theorem C07.dep_C06_symbol_symbol_as_modelled : type_of% C06.src_symbol_symbol_as_modelled := C06.src_symbol_symbol_as_modelled
 theorem C07.dep_C05_port_inport_as_modelled_1 : type_of% C05.src_port_inport_as_modelled_1 := C05.src_port_inport_as_modelled_1
 theorem C07.dep_C05_port_inport_as_modelled_2 : type_of% C05.src_port_inport_as_modelled_2 := C05.src_port_inport_as_modelled_2
 theorem C07.dep_C05_port_outport_as_modelled_1 : type_of% C05.src_port_outport_as_modelled_1 := C05.src_port_outport_as_modelled_1
 theorem C07.dep_C05_port_outport_as_modelled_2 : type_of% C05.src_port_outport_as_modelled_2 := C05.src_port_outport_as_modelled_2
+theorem C07.dep_C08_node_proxy_as_modelled : type_of% C08.src_node_proxy_as_modelled := C08.src_node_proxy_as_modelled
+theorem C07.dep_C08_symbol_cluster_as_modelled : type_of% C08.src_symbol_cluster_as_modelled := C08.src_symbol_cluster_as_modelled
